@@ -91,6 +91,7 @@ type Stream struct {
 	// Read data above the sinceTs. All keys with version =< sinceTs will be ignored.
 	SinceTs      uint64
 	readTs       uint64
+	snapshotTs   uint64 // Read timestamp shared by all producers of a run, when readTs is not set.
 	db           *DB
 	rangeCh      chan keyRange
 	kvChan       chan *z.Buffer
@@ -178,7 +179,12 @@ func (st *Stream) produceKVs(ctx context.Context, threadId int) error {
 	if st.readTs > 0 {
 		txn = st.db.NewTransactionAt(st.readTs, false)
 	} else {
-		txn = st.db.NewTransaction(false)
+		// Read at the snapshot which Orchestrate took for this run, so that all the
+		// producers see the same data. That transaction holds the read mark for the
+		// whole run; this one must not release it a second time.
+		txn = st.db.newTransaction(false, true)
+		txn.readTs = st.snapshotTs
+		txn.doneRead = true
 	}
 	defer txn.Discard()
 
@@ -424,6 +430,16 @@ func (st *Stream) Orchestrate(ctx context.Context) error {
 
 	if st.KeyToList == nil {
 		st.KeyToList = st.ToList
+	}
+
+	if st.readTs == 0 {
+		// Take one read timestamp for the whole run. If every producer started its own
+		// transaction, commits happening in between would make them iterate over different
+		// snapshots. Keeping this transaction open also stops compactions from discarding
+		// versions which the producers still need.
+		snapshot := st.db.NewTransaction(false)
+		defer snapshot.Discard()
+		st.snapshotTs = snapshot.readTs
 	}
 
 	// Picks up ranges from Badger, and sends them to rangeCh.
